@@ -59,7 +59,7 @@ FIXES = {
     "C01": ["ed3f58f", "d933def", "306abce"], "C02": ["ed3f58f"], "C03": ["3ca852e", "6189f55", "734defe", "67f148f"], "C04": ["a8c8963", "8114c3c", "a3f40e9", "8ef624f"],
     "C05": ["c71f4c0"], "C06": ["ba17563", "14676ac", "4ec175a", "d933def", "306abce", "f63feb4"], "C07": ["b355af9", "4ec175a", "beef00c", "1d7179f", "f63feb4"], "C08": ["8857650", "8114c3c"],
     "C09": ["ed3f58f"], "C10": ["dd89c99", "f0f4b08", "3ca852e"], "C11": ["dd89c99", "ed3f58f"], "C12": ["d15cbe3"], "C13": ["f540614", "1d7179f"],
-    "C14": ["8295018", "734defe", "65a6560", "67f148f"], "C16": ["a3f40e9", "67f148f"], "C17": ["f2cf747", "a3f40e9", "81d5716", "8ef624f"], "C19": ["8857650"],
+    "C14": ["8295018", "734defe", "65a6560", "67f148f"], "C16": ["a3f40e9", "67f148f"], "C17": ["f2cf747", "a3f40e9", "81d5716", "8ef624f", "baf292d"], "C19": ["8857650"],
 }
 REGRESS = """Make the two changes DIFFERENT IN KIND from each other: touch different functions (ideally different modules), and break different clauses of the property.
 
